@@ -73,6 +73,8 @@ def run(ck):
         ck.note('%d worker interpreters failed (first: %s: %s)' % (len(info['infrastructure']), label, err[-300:]))
         if not ck.violations:
             raise RuntimeError('determinism worker failed (%s): %s' % (label, err[-800:]))
+    ck.note('D15 (`_permissioned_tagmaps` printed a set) is repaired in /repo: the line is modelled by tagmapsLineSorted, the '
+            'printed-set form stays as regression model (tagmaps_order_dependent) and as hand seed')
     ck.note('testing part: a byte difference needs the interpreter to actually pick two different orders; sets of '
             'objects hashed by address are perturbed by junk allocation, an unrelated compile and other backend runs, '
             'not exhaustively')
